@@ -38,3 +38,31 @@ func DumpIndexSites(p *an.Prog) {
 		})
 	}
 }
+
+// DumpViewCounts prints, per WalletManager method, the View/Update call sites reachable from it (debug aid).
+func DumpViewCounts(p *an.Prog) {
+	view := p.Fn(pkgDB, "", "View")
+	upd := p.Fn(pkgDB, "", "Update")
+	for _, f := range p.ModFuncs {
+		if f.Signature.Recv() == nil || f.Parent() != nil {
+			continue
+		}
+		n := an.NamedOf(f.Signature.Recv().Type())
+		if n == nil || n.Obj().Name() != "WalletManager" || !f.Object().Exported() {
+			continue
+		}
+		reached, _ := p.Reach([]*ssa.Function{f}, an.ReachOpts{})
+		var vs, us []string
+		for g := range reached {
+			for _, s := range calls(g, view) {
+				vs = append(vs, p.InstrPos(s))
+			}
+			for _, s := range calls(g, upd) {
+				us = append(us, p.InstrPos(s))
+			}
+		}
+		sort.Strings(vs)
+		sort.Strings(us)
+		fmt.Printf("%-30s views=%d %v updates=%d\n", f.Name(), len(vs), vs, len(us))
+	}
+}
